@@ -331,6 +331,11 @@ func seqLetters(s SeqScript) string {
 func TestExhaustive(t *testing.T) {
 	defer cExh.Flush()
 	if p := vt.ReplayPath(); p != "" {
+		// The driver ANDs the exhaustive flag over every stats file of this check,
+		// including the ones written by replay-tier processes (which enumerate
+		// nothing).  A replay process must not veto the sweep's claim; a failing
+		// replay is reported as a violation anyway.
+		cExh.SetExhaustive(true)
 		replaySeq(t, cExh, "fsm-exhaustive", p)
 		return
 	}
